@@ -1610,12 +1610,26 @@ Value ClusterEvents::SetRemovalInfoAPIHandler(const MessageOrigin::Ptr& origin, 
 		Comment::Ptr comment = Comment::GetByName(objectName);
 
 		if (comment) {
+			if (origin->FromZone && !origin->FromZone->CanAccessObject(comment)) {
+				Log(LogNotice, "ClusterEvents")
+					<< "Discarding 'set removal info' message for comment '" << comment->GetName() << "' from '"
+					<< origin->FromClient->GetIdentity() << "': Unauthorized access.";
+				return Empty;
+			}
+
 			comment->SetRemovalInfo(removedBy, removeTime, origin);
 		}
 	} else if (objectType == Downtime::GetTypeName()) {
 		Downtime::Ptr downtime = Downtime::GetByName(objectName);
 
 		if (downtime) {
+			if (origin->FromZone && !origin->FromZone->CanAccessObject(downtime)) {
+				Log(LogNotice, "ClusterEvents")
+					<< "Discarding 'set removal info' message for downtime '" << downtime->GetName() << "' from '"
+					<< origin->FromClient->GetIdentity() << "': Unauthorized access.";
+				return Empty;
+			}
+
 			downtime->SetRemovalInfo(removedBy, removeTime, origin);
 		}
 	} else {
